@@ -104,7 +104,7 @@ func (a *FuncAn) invariantAtom(at *Atom, l *loop, depth int) bool {
 					return false
 				}
 			case ssa.CallInstruction:
-				m := availMap{"p": availEnt{p, ld}}
+				m := availMap{"p": availEnt{p: p, rep: ld}}
 				a.killByCall(m, a.E.callWrites(a, x))
 				if len(m) == 0 {
 					return false
@@ -351,6 +351,11 @@ func (e *Engine) LoopProgress(f *ssa.Function) []LoopRes {
 		}
 		switch {
 		case best == nil:
+			if d, w, ok := a.cursorLoop(l); ok {
+				res.Desc, res.Why = d, w
+				res.InputBound = true
+				break
+			}
 			res.Status = Unsupported
 			res.Why = "loop shape not recognised: no integer loop variable with an invariant bound tested on every iteration"
 		case best.ok:
